@@ -13,6 +13,23 @@ ALLOWED_AXIOMS = {
 }
 
 PROPS = {
+    "C10": {
+        "n": {"quick": 2500, "thorough": 30000},
+        "shards": 16,
+        "trusted": [
+            "graph-level model: path resolution (filepath.Join/Clean, ~ expansion) and glob matching are executed by the real code on real temp directories; the model receives, per directive, the file(s) it names (for a glob: the files whose name matches, filtered by existence at load time)",
+            "os file access is a finite map in the model",
+        ],
+        "assumptions": ["files parse without syntax errors (parse-error load errors are not compared)"],
+        "explanation": "refutations of exact cycle verdicts (diamond, double include, depth limit) as theorems, root-level verdicts for all file systems; tie: all 512 digraphs on 3 files + random directories of 1..5 files with every include form; oracle: stack-based reference traversal (loaded set = reference set, each once, identical diagnostics)",
+    },
+    "C11": {
+        "n": {"quick": 2500, "thorough": 30000},
+        "shards": 16,
+        "trusted": ["same graph-level model as C10; edits are write+InvalidateFile as the property quantifies"],
+        "assumptions": ["default depth limit (the count-based limit interacts with unmarked cache hits; C10 covers the limit)"],
+        "explanation": "C11 refuted (cache hit truncates) as a theorem; partial theorems for ClearCache and invalidate in every state; tie+oracle: after every load of a random operation sequence the shared loader's result is compared with a fresh loader's on the same files",
+    },
     "C13": {
         "n": {"quick": 600, "thorough": 8000},
         "shards": 16,
